@@ -4,6 +4,7 @@ META = {}
 # known findings of this harness; with VF_KF_MANUAL=1 the defines are passed directly (ids not yet in known_findings.json)
 KF_CTOR = 'C12-number-ctor-uninit'
 KF_TYPE = 'C12-assign-type-no-reset'
+KF_NULLP = 'C12-setptr-null'
 MAN = os.environ.get('VF_KF_MANUAL') == '1'
 KIND = {'U': 0, 'S': 4, 'UI': 5, 'I': 6, 'D': 7, 'T': 8, 'F': 9, 'NUL': 10}
 OP = {'NONE': 0, 'AS_SCALAR': 1, 'AS_TYPE': 2, 'AS_STR': 3, 'AS_ARR': 4, 'AS_COPY': 5, 'AS_MOVE': 6, 'AS_SELF': 7, 'CTOR_COPY': 8, 'CTOR_MOVE': 9,
@@ -29,8 +30,10 @@ def cls(name):
 def nmemb(name):
     c = cls(name); return c['N'] if c['K'] == 3 else 0
 B = {'Dispose': 6, 'Copy': 100, 'SetToZero': 100, 'vf_mem.*': 100, 'Count': 4, 'IsEqual': 6, 'h_step|mk.*|m_.*|obs_.*|scalar_arg|mutate|slot_fill': 9, 'Initialize': 6}
+# heap blocks are byte arrays: keep them field-sensitive up to 200 bytes (default 64), else kind tags stop being constants
+XC = ('--max-field-sensitivity-array-size', '200', '--object-bits', '10')
 STN = '_ZN6Qentem5Digit14stringToNumberIcEENS_11QNumberTypeERNS_9QNumber64EPKT_Rjj'
-def Q(pre, op, src=None, kf_only=None, **kw):
+def Q(pre, op, src=None, kf_only=None, stub=True, **kw):
     d = {'OP': OP[op]}
     name = '%s/%s' % (op, pre)
     for k, v in cls(pre).items(): d['PRE_' + k] = v
@@ -40,14 +43,14 @@ def Q(pre, op, src=None, kf_only=None, **kw):
     for k in ('SEL', 'W', 'BV', 'LEN_A', 'AN', 'IDX', 'COERCE'):
         if k in kw:
             d[k] = kw.pop(k); name += '/%s%d' % (k.lower(), d[k])
-    excl = [KF_CTOR] + ([KF_TYPE] if op == 'AS_TYPE' else [])
+    excl = [KF_CTOR] + ([KF_TYPE] if op == 'AS_TYPE' else []) + ([KF_NULLP] if op == 'SET_PTR' else [])
     if kf_only:
         excl = [k for k in excl if k != kf_only]; name += '/only:' + kf_only
     if MAN:
         for k in excl: d['KF_EXCL_' + k.replace('-', '_')] = 1
         if kf_only: d['KF_ONLY_' + kf_only.replace('-', '_')] = 1
     return Query(name, 'C12_value.cpp', 'h_step', d, bounds=B, default_unwind=6, rec_bounds={}, default_rec=3, timeout=300, mem_gb=8,
-                 leak=True, stubs={STN: 'stub_strtonum'}, kf_excl=excl, kf_only=(None if MAN else kf_only), **kw)
+                 leak=True, stubs=({STN: 'stub_strtonum'} if stub else {}), extra_cbmc=XC, kf_excl=excl, kf_only=(None if MAN else kf_only), **kw)
 def queries(tier):
     q = tier == 'quick'
     qs = []
@@ -82,9 +85,14 @@ def queries(tier):
         c = cls(p)
         if c['K'] == 3 and c['N'] > 0 and c['E1'] != 0:
             A('AP_ELEM', SEL=0); A('AP_ELEM', SEL=1)
+    # numeric / boolean coercion of strings (real Digit::stringToNumber, no stub): every string of 1..3 units, and of 4 / 5 units ("true" / "false")
+    for p in (('S1', 'S2', 'S4') if q else ('S0', 'S1', 'S2', 'S3', 'S4', 'S5', 'P_S2')):
+        qs.append(Q(p, 'NONE', COERCE=1, stub=False))
     # the findings themselves
     qs.append(Q('UI', 'AP_SCALAR', SEL=3, W=0, kf_only=KF_CTOR))
     qs.append(Q('D', 'INDEX', IDX=0, W=0, kf_only=KF_CTOR))
     qs.append(Q('S1', 'AS_TYPE', SEL=10, kf_only=KF_TYPE))
     qs.append(Q('UI', 'AS_TYPE', SEL=3, kf_only=KF_TYPE))
+    qs.append(Q('UI', 'SET_PTR', src='UI', SEL=1, kf_only=KF_NULLP))
+    qs.append(Q('P_UI', 'SET_PTR', src='UI', SEL=1, kf_only=KF_NULLP))
     return qs
